@@ -62,6 +62,11 @@ def struct_faults(w, msg_bytes, r):
                     elif k.HasField("data"):
                         inv["db"].append(k.data.uuid)
     missing = bytes(r.getrandbits(8) for _ in range(16))
+    if r.random() < 0.25:
+        # the nil / all-ones UUID as the name of a node that does not exist
+        cand = r.choice([b"\0" * 16, b"\xff" * 16])
+        if cand not in [u for us in inv.values() for u in us]:
+            missing = cand
 
     known = {u for us in inv.values() for u in us}
 
@@ -533,6 +538,7 @@ class FaultProfile(PersistProfile):
         c["aux_depth"] = r.choice([1, 2])
         c["max_aux"] = 2
         c["max_ir"] = 1
+        c["bulk"] = False  # every byte of the file is a fault site: keep the files small
         return c
 
     def config(self, r):
